@@ -57,6 +57,7 @@ class Contract:
         pure_check=False,
         ensures_rt=(),
         ghost=None,
+        variant=None,
     ):
         self.target = target
         self.params = dict(params)  # name -> type (order = positional order)
@@ -88,7 +89,9 @@ class Contract:
         # ghost parameters: name -> (type, native expression); symbolically a
         # fresh value constrained by `requires`
         self.ghost = dict(ghost or {})
-        self.short = target.split(":")[1]
+        self.variant = variant
+        self.short = target.split(":")[1] + (f"#{variant}" if variant else "")
+        self.key = target + (f"#{variant}" if variant else "")
         self.proved_lemmas = []
 
     def bind(self, args, kwargs, engine, st, skip_self=False):
@@ -126,7 +129,9 @@ class Registry:
         self.by_target = {}
 
     def add(self, c):
-        self.by_target[c.target] = c
+        # variants (same function, different parameter typing) are verified
+        # separately; callers resolve the un-suffixed contract
+        self.by_target[c.key] = c
         return c
 
     def get(self, key):
